@@ -165,11 +165,30 @@ def _enumerate_obligations(ctx, body):
     return out
 
 
+def option_source(e):
+    """`o.map(f)`, `o.ok_or_else(g)` and friends are lowered to phi(Some{..} when o is Some | None when o is None): whether
+    such a value can be unwrapped is exactly whether `o` can - return that underlying Option / Result (else e itself)"""
+    for _ in range(6):
+        x = e
+        while x[0] in ('ref', 'deref'):
+            x = x[1]
+        if x[0] == 'phi' and x[1] is None and len(x) > 4 and x[4] and all(isinstance(w, tuple) and w and w[0] == 'cond' for w in x[4]):
+            ds = {id(w[1]): w[1] for w in x[4]}
+            srcs = [w[1] for w in x[4] if w[1][0] == 'discr']
+            good = [br for br in x[2] if br[0] == 'aggr' and re.search(r'(Option::Some|Result::Ok)$', str(br[1]))]
+            bad = [br for br in x[2] if br[0] == 'aggr' and re.search(r'(Option::None|Result::Err)$', str(br[1]))]
+            if len(srcs) == len(x[4]) and len(good) == 1 and len(good) + len(bad) == len(x[2]) and len({render(d) for d in srcs}) == 1:
+                e = strip(srcs[0][1], transparent=False)
+                continue
+        return e
+    return e
+
+
 def callee_detail(body, t, kind):
     path = t['callee']['path']
     name = path.rsplit('::', 1)[-1]
     if kind in ('unwrap-option', 'unwrap-result', 'unwrap-localresult'):
-        src = strip(body.expr(t['args'][0]), transparent=False)
+        src = option_source(strip(body.expr(t['args'][0]), transparent=False))
         return 'unwrap<-' + origin_text(src)
     if kind == 'index':
         gen = t['callee'].get('gen', [])
@@ -663,7 +682,7 @@ class Discharger:
     # --- unwraps
     def d_unwrap_option(self, ob):
         b = ob.body
-        src = strip(b.expr(ob.term['args'][0]), transparent=False)
+        src = option_source(strip(b.expr(ob.term['args'][0]), transparent=False))
         return self.unwrap_source(ob, src)
 
     d_unwrap_result = d_unwrap_option
